@@ -201,7 +201,9 @@ def r2(F, R):
                     if st["k"] == "assign" and st["rv"]["k"] == "agg" and st["rv"].get("closure") == cs.path:
                         for op in st["rv"]["ops"]:
                             v = pb.value(op)
-                            if v[0] == "ref" and v[1][0] == "upvar" and v[1][1] == "settings":
+                            # by type of the captured variable (the Settings implementor), not by its name
+                            sname = {c["var"] for c in pb.captures if c.get("ty", "") == "S" and c.get("by") == "ByValue"}
+                            if v[0] == "ref" and v[1][0] == "upvar" and v[1][1] in sname:
                                 okp = True
         if okp:
             R.ok("C19-R2", cs.path + ":settings_ref", site, "captured settings reference = &settings of the value moved into the controller thread")
